@@ -2,8 +2,14 @@
 """print the prompt for a mutant-seeding sub-agent: property text only, nothing from /verif's machinery"""
 import json, sys
 pid = sys.argv[1]
-round2 = len(sys.argv) > 2 and sys.argv[2] == "2"
-wd = pid + ("r2" if round2 else "")
+rnd = sys.argv[2] if len(sys.argv) > 2 else "1"
+round2 = rnd in ("2", "3")
+wd = pid + ("r" + rnd if round2 else "")
+extra3 = (" In THIS round go for the less obvious places: (1) a change OUTSIDE the files the property is anchored in (a helper, a utility, an option default, a caller or callee one or two levels away) whose effect surfaces in this property; "
+          "(2) a change that manifests only for an unusual-but-legal ARGUMENT TYPE or LAYOUT (python lists or tuples instead of arrays, pandas Series, integer / float32 / boolean dtypes, read-only or non-contiguous arrays, numpy scalars "
+          "instead of python numbers, numpy integer or float valued options, keyword vs positional passing) or only at a particular SIZE (very short signals, exactly one / two / three cycles, a length that is a multiple of something); "
+          "(3) a change of the refactoring kind (vectorising a loop, replacing a pandas idiom by a numpy one or vice versa, caching, early return, merging two branches, hoisting something out of a loop) that is right in the common case and wrong in a corner. "
+          "Try to make the three changes one of each kind.") if rnd == "3" else ""
 p = next(json.loads(l) for l in open('/verif/properties.jsonl') if json.loads(l)['id'] == pid)
 print(f"""You are helping to evaluate a verification effort by playing the adversary. You work ONLY inside the scratch git worktree /tmp/seed/{wd} (a checkout of the Python library `bycycle`, which segments neural time series into cycles, computes per-cycle features and detects oscillatory bursts). Do not read or write anything under /verif or /repo. There is no network. Python with all dependencies is /venv/bin/python; to make sure your worktree's code is what gets imported, always run things as `cd /tmp/seed/{wd} && PYTHONPATH=/tmp/seed/{wd} /venv/bin/python ...`.
 
@@ -15,7 +21,7 @@ The following semantic property of the library is supposed to hold:
   code it is anchored in: {', '.join(p['anchors']['files'])}
   mechanisms: {json.dumps(p['anchors']['mechanism'])}
 
-Your task: produce {'THREE' if round2 else 'TWO'} independent, realistic code changes to the library (each on its own, each in its own patch) that BREAK this property while (a) the package still imports and (b) the existing test suite's currently-passing tests still pass. Think of plausible developer mistakes or "optimisations": an off-by-one in a slice, a comparison operator, a swapped pair, a missing copy, a changed default, a reordered branch, an index expression, two sites that each look fine alone. IMPORTANT: prefer changes that need something SPECIFIC to manifest - an unusual input (ties, plateaus, NaNs, a value exactly on a threshold, a particular array shape, an empty or boundary case), a multi-step sequence of calls, a particular option combination - rather than changes that break every ordinary call at once. The changes should be of different kinds / at different sites.{' At least one of them must need TWO cooperating edits at different sites (each harmless alone) or a multi-step sequence of API calls / a particular history to manifest, and at least one should live in glue code (argument routing, option handling, defaults, copies, index bookkeeping) rather than in the central formula. Do not use git stash (worktrees share the stash).' if round2 else ''}
+Your task: produce {'THREE' if round2 else 'TWO'} independent, realistic code changes to the library (each on its own, each in its own patch) that BREAK this property while (a) the package still imports and (b) the existing test suite's currently-passing tests still pass. Think of plausible developer mistakes or "optimisations": an off-by-one in a slice, a comparison operator, a swapped pair, a missing copy, a changed default, a reordered branch, an index expression, two sites that each look fine alone. IMPORTANT: prefer changes that need something SPECIFIC to manifest - an unusual input (ties, plateaus, NaNs, a value exactly on a threshold, a particular array shape, an empty or boundary case), a multi-step sequence of calls, a particular option combination - rather than changes that break every ordinary call at once. The changes should be of different kinds / at different sites.{' At least one of them must need TWO cooperating edits at different sites (each harmless alone) or a multi-step sequence of API calls / a particular history to manifest, and at least one should live in glue code (argument routing, option handling, defaults, copies, index bookkeeping) rather than in the central formula. Do not use git stash (worktrees share the stash).' if round2 else ''}{extra3}
 
 For each change k in {{1, 2{', 3' if round2 else ''}}} create the directory /tmp/seed_out/{wd}_k/ containing:
   - patch.diff : output of `git diff` in the worktree for that change alone (apply-able with `git apply` on a clean checkout);
